@@ -2184,6 +2184,158 @@ fn kind_bigvec(rng: &mut Rng, out: &mut Out, id: &str, _tier: &str) {
     out.end();
 }
 
+// msb sweeps: the width / level / low-width computations go through `needed_bits` / `msb` of the maximum (or of
+// universe / n); one tiny instance per position of the top bit (the two shards of a build share the 64 positions)
+fn sweep_msb(kind: u32, out: &mut Out, id: &str, sid: u64) {
+    use sucds::int_vectors::Access as IA;
+    for b in 0..64usize {
+        if (b as u64) % 2 != sid % 2 { continue; }
+        let top = 1usize << b;
+        let vals: Vec<usize> = vec![3.min(top), top | (top >> 1), 0, top];
+        let cid = format!("{}m{}", id, b);
+        match kind {
+            6 => {
+                out.case(&cid);
+                out.op(1006, &[], "K".into(), "CompactVector::default");
+                out.data(&vals);
+                match guard(|| CompactVector::from_slice(&vals)) {
+                    None => out.op(73, &[], "P".into(), "from_slice"),
+                    Some(Err(_)) => out.op(73, &[], "E".into(), "from_slice"),
+                    Some(Ok(cv)) => {
+                        out.op(73, &[], "K".into(), "from_slice");
+                        out.op(77, &[], r_num(|| cv.width()), "width");
+                        out.op(10, &[], r_num(|| cv.len()), "len");
+                        for p in 0..5usize { out.op(78, &[p], r_optnum(|| cv.get_int(p)), "get_int"); }
+                    }
+                }
+                out.end();
+            }
+            7 => {
+                for &ml in &[0usize, 1, 2] {
+                    out.case(&format!("{}l{}", cid, ml));
+                    out.data(&vals);
+                    let has_ml = ml > 0;
+                    match guard(|| DacsOpt::from_slice(&vals, if has_ml { Some(ml) } else { None })) {
+                        None => out.op(1007, &[has_ml as usize, ml], "P".into(), "DacsOpt::from_slice"),
+                        Some(Err(_)) => out.op(1007, &[has_ml as usize, ml], "E".into(), "DacsOpt::from_slice"),
+                        Some(Ok(x)) => {
+                            out.op(1007, &[has_ml as usize, ml], "K".into(), "DacsOpt::from_slice");
+                            out.op(10, &[], r_num(|| x.len()), "len");
+                            out.op(80, &[], r_num(|| x.num_levels()), "num_levels");
+                            out.op(81, &[], r_nums(&x.widths()), "widths");
+                            for p in 0..5usize { out.op(78, &[p], r_optnum(|| x.access(p)), "access"); }
+                        }
+                    }
+                    out.end();
+                }
+            }
+            8 => {
+                out.case(&cid);
+                out.data(&vals);
+                match guard(|| DacsByte::from_slice(&vals)) {
+                    None => out.op(1008, &[], "P".into(), "DacsByte::from_slice"),
+                    Some(Err(_)) => out.op(1008, &[], "E".into(), "DacsByte::from_slice"),
+                    Some(Ok(x)) => {
+                        out.op(1008, &[], "K".into(), "DacsByte::from_slice");
+                        out.op(10, &[], r_num(|| x.len()), "len");
+                        out.op(80, &[], r_num(|| x.num_levels()), "num_levels");
+                        out.op(81, &[], r_nums(&x.widths()), "widths");
+                        for p in 0..5usize { out.op(78, &[p], r_optnum(|| x.access(p)), "access"); }
+                    }
+                }
+                out.end();
+            }
+            5 => {
+                // low width = msb(universe / n): universe = 2^b * n (+ n - 1), n = 3
+                for &extra in &[0usize, 2] {
+                    let n = 3usize;
+                    let u = match top.checked_mul(n) { Some(x) => x + extra, None => continue };
+                    out.case(&format!("{}e{}", cid, extra));
+                    let b0 = guard(|| EliasFanoBuilder::new(u, n));
+                    let mut bld = match b0 {
+                        None => { out.op(1005, &[u, n], "P".into(), "EliasFanoBuilder::new"); out.end(); continue; }
+                        Some(Err(_)) => { out.op(1005, &[u, n], "E".into(), "EliasFanoBuilder::new"); out.end(); continue; }
+                        Some(Ok(x)) => { out.op(1005, &[u, n], "K".into(), "EliasFanoBuilder::new"); x }
+                    };
+                    let xs = [top - 1, top, u - 1];
+                    for &v in &xs {
+                        let r = r_unit(|| bld.push(v));
+                        out.op(50, &[v], r, "push");
+                    }
+                    match guard(AssertUnwindSafe(|| bld.build().enable_rank())) {
+                        None => out.op(52, &[1], "P".into(), "build"),
+                        Some(ef) => {
+                            out.op(52, &[1], "K".into(), "build");
+                            out.op(10, &[], r_num(|| ef.len()), "len");
+                            out.op(60, &[], r_num(|| ef.universe()), "universe");
+                            for k in 0..4usize {
+                                out.op(61, &[k], r_optnum(|| ef.select(k)), "select");
+                                out.op(62, &[k], r_optnum(|| ef.delta(k)), "delta");
+                            }
+                            for &q in &[0usize, top - 1, top, top + 1, u - 1, u] {
+                                out.op(63, &[q], r_optnum(|| ef.rank(q)), "rank");
+                                out.op(64, &[q], r_optnum(|| ef.predecessor(q)), "predecessor");
+                                out.op(65, &[q], r_optnum(|| ef.successor(q)), "successor");
+                            }
+                        }
+                    }
+                    out.end();
+                }
+            }
+            _ => {}
+        }
+    }
+    out.stat("sweep:msb-positions");
+}
+
+// kind 28 (thorough tier only: the list-based model needs 2-4 minutes to build one): a wavelet matrix over DArray with more than 65536 elements in which one bit
+// value is rare on some layer, so that the select index of that layer holds a sparse block (overflow positions)
+fn kind_wm_sparse(rng: &mut Rng, out: &mut Out, id: &str, sid: u64) {
+    let n = rng.range(66_000, 68_000) as usize;
+    let w = 1 + (sid % 2) as usize;
+    let common: usize = if sid % 4 < 2 { 0 } else { (1 << w) - 1 };
+    let bit = if w == 2 && sid % 8 >= 4 { 0 } else { w - 1 };        // the layer on which the rare value differs
+    let rare = common ^ (1usize << bit);
+    let cnt_r = rng.pick(&[2usize, 3, 40, 1030]);
+    let mut vals = vec![common; n];
+    let mut rp: Vec<usize> = vec![rng.below(100) as usize, n - 1 - rng.below(100) as usize];
+    while rp.len() < cnt_r { rp.push(rng.below(n as u64) as usize); }
+    for &p in &rp { vals[p] = rare; }
+    rp.sort_unstable();
+    rp.dedup();
+    out.case(id);
+    out.data(&vals);
+    let r = guard(|| {
+        let cv = CompactVector::from_slice(&vals).unwrap();
+        WaveletMatrix::<DArray>::new(cv)
+    });
+    let wm = match r {
+        None => { out.op(1010, &[1], "P".into(), "WaveletMatrix::new"); out.end(); return; }
+        Some(Err(_)) => { out.op(1010, &[1], "E".into(), "WaveletMatrix::new"); out.end(); return; }
+        Some(Ok(x)) => { out.op(1010, &[1], "K".into(), "WaveletMatrix::new (sparse layer)"); x }
+    };
+    out.stat("wm:sparse-layer");
+    out.op(10, &[], r_num(|| wm.len()), "len");
+    out.op(83, &[], r_num(|| wm.alph_size()), "alph_size");
+    let cr = rp.len();
+    let cc = n - cr;
+    let mut ks: Vec<usize> = (0..cr.min(36) + 2).collect();
+    ks.extend_from_slice(&[cr.wrapping_sub(1), cr, 1023, 1024, 1025]);
+    ks.sort_unstable();
+    ks.dedup();
+    for &k in &ks { out.op(86, &[k, rare], r_optnum(|| wm.select(k, rare)), "select"); }
+    for &k in &[0usize, 1, 31, 32, 1023, 1024, 1025, 2048, cc / 2, cc - 1, cc, cc + 1] {
+        out.op(86, &[k, common], r_optnum(|| wm.select(k, common)), "select");
+    }
+    for &p in rp.iter().take(6) {
+        out.op(78, &[p], r_optnum(|| wm.access(p)), "access");
+        out.op(84, &[p + 1, rare], r_optnum(|| wm.rank(p + 1, rare)), "rank");
+        out.op(84, &[p, common], r_optnum(|| wm.rank(p, common)), "rank");
+    }
+    out.op(98, &[], r_num(|| wm.size_in_bytes()), "size_in_bytes");
+    out.end();
+}
+
 // kind 26: DArray exact-span sweep (deep / thorough searches): lead x ones-before-the-far-one x distance x view,
 // the combinations split over the shards of a run.  A block of `c` consecutive ones starting at `lead` and one
 // more at distance `d` from the first: the dense / sparse decision (d < 65536), the sub-block head (c % 32 == 0),
@@ -2336,10 +2488,10 @@ fn main() {
                 2 => kind_rank9(&mut rng, &mut out, &id, tier),
                 3 => kind_darray(&mut rng, &mut out, &id, tier),
                 4 => kind_sarray(&mut rng, &mut out, &id, tier),
-                5 => kind_efb(&mut rng, &mut out, &id, tier),
-                6 => kind_cv(&mut rng, &mut out, &id, tier),
-                7 => kind_dacsopt(&mut rng, &mut out, &id, tier),
-                8 => kind_dacsbyte(&mut rng, &mut out, &id, tier),
+                5 => { if i == 0 { sweep_msb(5, &mut out, &id, sid); } kind_efb(&mut rng, &mut out, &id, tier) }
+                6 => { if i == 0 { sweep_msb(6, &mut out, &id, sid); } kind_cv(&mut rng, &mut out, &id, tier) }
+                7 => { if i == 0 { sweep_msb(7, &mut out, &id, sid); } kind_dacsopt(&mut rng, &mut out, &id, tier) }
+                8 => { if i == 0 { sweep_msb(8, &mut out, &id, sid); } kind_dacsbyte(&mut rng, &mut out, &id, tier) }
                 9 => kind_psef(&mut rng, &mut out, &id, tier),
                 10 => kind_wm(&mut rng, &mut out, &id, tier),
                 11 => kind_broadword(&mut rng, &mut out, &id, tier),
@@ -2349,6 +2501,7 @@ fn main() {
                 // (the list-based model needs 5..30 s to build one: deep / thorough searches only)
                 23 => if i == 0 && tier != "quick" { kind_ef_large(&mut rng, &mut out, &id, tier, true, sid) },
                 24 => if i == 0 && tier != "quick" { kind_psef_edge(&mut rng, &mut out, &id, tier, sid) },
+                28 => if i == 0 && tier == "thorough" && seed % 2 == 0 { kind_wm_sparse(&mut rng, &mut out, &id, sid) },
                 26 => if i == 0 { kind_darray_sweep(&mut out, sid, &format!("k26s{}", seed)) },
                 25 => if i == 0 && tier != "quick" { kind_sarray_edge(&mut rng, &mut out, &id, tier, sid) },
                 14 => kind_wrappers(&mut rng, &mut out, &id, tier),
